@@ -213,6 +213,22 @@ func (c *Ctx) TRV(rule string) []report.Obligation {
 
 	// TRV-2: in the spawned closure: visitor ... done ... send, on every path
 	cl := sp.Closure
+	// the spawned closure may only hand over to a method that does the work (one call, whose result it returns)
+	if cl != nil && len(cl.Blocks) == 1 {
+		var only *ssa.Function
+		ncalls := 0
+		for _, in := range cl.Blocks[0].Instrs {
+			if call, ok := in.(*ssa.Call); ok {
+				ncalls++
+				if cal := call.Call.StaticCallee(); cal != nil && c.P.InModule(cal) && cal.Blocks != nil {
+					only = cal
+				}
+			}
+		}
+		if ncalls == 1 && only != nil {
+			cl = only
+		}
+	}
 	var visitorCall, doneCall ssa.Instruction
 	var send *ssa.Send
 	for _, b := range cl.Blocks {
